@@ -21,6 +21,7 @@ type FuncResult struct {
 	OutOfSubset []string
 	Errors      []string
 	ss          *SpecSet
+	lemmaEncs   []*enc // one encoder per lemma obligation (lemmas result only)
 }
 
 func (w *World) contractFor(ss *SpecSet, fn *ssa.Function) *Contract {
@@ -129,7 +130,92 @@ func (e *enc) lookupLocal(fr *frame, h *ssa.BasicBlock, phiVals map[*ssa.Phi]Ter
 	return tval{}, false
 }
 
+// lookupLocalAtHeader: value of a loop-carried variable at the beginning of the current iteration (x@pre)
+func (e *enc) lookupLocalAtHeader(fr *frame, h *ssa.BasicBlock, ls *loopState, name string) (tval, bool) {
+	for _, in := range h.Instrs {
+		phi, ok := in.(*ssa.Phi)
+		if !ok {
+			break
+		}
+		if phi.Comment == name {
+			if t, ok := ls.phiPre[phi]; ok {
+				return e.mkT(t, phi.Type()), true
+			}
+		}
+	}
+	// variable held in a cell: its content at the loop head
+	if v, ok := fr.names[h][name]; ok {
+		if a, isAlloc := v.(*ssa.Alloc); isAlloc {
+			if l, ok := fr.loc[a]; ok && l.ty != nil {
+				return e.mkT(e.readIn(ls.memHead, l), l.ty), true
+			}
+		}
+	}
+	return tval{}, false
+}
+
+// verifyLemmas: every `lemma` of the spec set is proved here: its bound variables become fresh constants,
+// so the negated statement is a ground query in which opaque and recursive definitions are unfolded.
+func verifyLemmas(w *World, ss *SpecSet) *FuncResult {
+	res := &FuncResult{Name: "lemmas"}
+	for _, ax := range ss.Axioms {
+		if !ax.Lemma {
+			continue
+		}
+		q, ok := ax.E.(*SQuant)
+		if !ok || !q.Forall {
+			res.Errors = append(res.Errors, "CONTRACT-ERROR lemma "+ax.Name+": must be a universally quantified statement")
+			continue
+		}
+		e := newEnc(w, ss, nil)
+		e.translateAxioms()
+		fr := &frame{cur: "true"}
+		e.fr = fr
+		pkg := e.pkgByPath(ax.PkgPath)
+		if pkg == nil {
+			continue
+		}
+		env := &specEnv{e: e, pkg: pkg, vars: map[string]tval{}, mem: map[string]Term{}}
+		bad := false
+		for _, v := range q.Vars {
+			ty, err := e.resolveTy(pkg, v.Ty)
+			if err != nil {
+				res.Errors = append(res.Errors, "CONTRACT-ERROR lemma "+ax.Name+": "+err.Error())
+				bad = true
+				break
+			}
+			c := e.fresh("lem_"+v.Name, e.so.of(ty))
+			e.assumeWF(c, ty, 1)
+			env.vars[v.Name] = e.mkT(c, ty)
+		}
+		if bad {
+			continue
+		}
+		g, err := e.specBool(env, q.Body)
+		if err != nil {
+			res.Errors = append(res.Errors, "CONTRACT-ERROR lemma "+ax.Name+": "+err.Error())
+			continue
+		}
+		// the lemma itself must not be used to prove itself
+		var keep []specAxiom
+		for _, a := range e.axioms {
+			if a.name != ax.Name {
+				keep = append(keep, a)
+			}
+		}
+		e.axioms = keep
+		o := &Obligation{Name: "lemma." + ax.Name, Class: "lemma", Fn: "lemmas", Goal: g, At: "true", NDecl: len(e.decls), NDef: len(e.defs), Text: ax.Text}
+		e.obls = append(e.obls, o)
+		res.Obls = append(res.Obls, o)
+		res.lemmaEncs = append(res.lemmaEncs, e)
+	}
+	return res
+}
+
 func identName(d *ssa.DebugRef) string {
+	if v, ok := d.Object().(*types.Var); ok && v != nil && isPkgLevel(v) {
+		return ""
+	}
 	type named interface{ String() string }
 	if id, ok := d.Expr.(interface{ End() token.Pos }); ok {
 		_ = id
@@ -342,6 +428,17 @@ func (e *enc) checkFrame(fr *frame, ct *Contract) {
 		return
 	}
 	fi := e.w.frameOf(fr.fn)
+	if ct.Pure {
+		goal, text := "true", "pure function: writes no package-level state and nothing through pointers"
+		if len(fi.writes) > 0 || fi.heap || fi.dynamic {
+			goal = "false"
+			text = "declared pure but writes package-level state / memory or calls through function values"
+		}
+		save := fr.cur
+		fr.cur = "true"
+		e.oblige("pure", goal, fr.fn.Pos(), text)
+		fr.cur = save
+	}
 	declared := map[string]bool{}
 	for _, m := range ct.Modifies {
 		switch n := m.E.(type) {
@@ -354,6 +451,61 @@ func (e *enc) checkFrame(fr *frame, ct *Contract) {
 		}
 	}
 	var missing []string
+	// parameters updated in the body (maps are references, pointers are dereferenced) must be declared too
+	declParam := map[string]bool{}
+	for _, m := range ct.Modifies {
+		switch n := m.E.(type) {
+		case *SIdent:
+			declParam[n.Name] = true
+		case *SUnary:
+			if id, ok := n.X.(*SIdent); ok {
+				declParam["*"+id.Name] = true
+			}
+		}
+	}
+	for _, b := range fr.fn.Blocks {
+		for _, in := range b.Instrs {
+			switch x := in.(type) {
+			case *ssa.MapUpdate:
+				if p, ok := x.Map.(*ssa.Parameter); ok && !declParam[p.Name()] {
+					missing = append(missing, "map parameter "+p.Name())
+				}
+			case *ssa.Store:
+				if p, ok := rootParam(x.Addr, 0); ok && !declParam["*"+p.Name()] {
+					missing = append(missing, "*"+p.Name())
+				}
+			case *ssa.Call:
+				if bi, ok := x.Call.Value.(*ssa.Builtin); ok && bi.Name() == "delete" {
+					if p, ok := x.Call.Args[0].(*ssa.Parameter); ok && !declParam[p.Name()] {
+						missing = append(missing, "map parameter "+p.Name())
+					}
+				}
+				if cal := x.Call.StaticCallee(); cal != nil && inRepo(cal) {
+					if cct, ok := e.ss.Contracts[cal.Pkg.Pkg.Path()+"."+funcKey(cal)]; ok {
+						for _, m := range cct.Modifies {
+							var pname string
+							star := ""
+							switch n := m.E.(type) {
+							case *SIdent:
+								pname = n.Name
+							case *SUnary:
+								if id, ok := n.X.(*SIdent); ok {
+									pname, star = id.Name, "*"
+								}
+							}
+							for i, cp := range cal.Params {
+								if cp.Name() == pname && i < len(x.Call.Args) {
+									if p, ok := rootParam(x.Call.Args[i], 0); ok && !declParam[star+p.Name()] {
+										missing = append(missing, star+p.Name()+" (through "+fnFull(cal)+")")
+									}
+								}
+							}
+						}
+					}
+				}
+			}
+		}
+	}
 	for g := range fi.writes {
 		k := g.Pkg.Pkg.Name() + "." + g.Name()
 		if !declared[k] {
